@@ -79,12 +79,12 @@ LAYOUTS = ["none", "t", "tl", "flat"]
 
 
 @st.composite
-def layout(draw, kinds=LAYOUTS, max_len=4):
+def layout(draw, kinds=LAYOUTS, max_len=4, min_len=1):
     k = draw(st.sampled_from(kinds))
     if k == "none":
         shape = []
     elif k == "t":
-        shape = [draw(st.integers(1, max_len))]
+        shape = [draw(st.integers(min_len, max_len))]
     elif k == "tl":
         shape = [draw(st.integers(1, max_len)), draw(st.integers(1, max(1, max_len - 1)))]
     else:
